@@ -6,6 +6,72 @@
 fn main() {}
 
 #[cfg(not(kani))]
+mod track {
+    //! records the largest single allocation request (for the `iofill` command)
+    use std::alloc::{GlobalAlloc, Layout, System};
+    use std::sync::atomic::{AtomicUsize, Ordering::SeqCst};
+    pub static MAX: AtomicUsize = AtomicUsize::new(0);
+    pub struct T;
+    unsafe impl GlobalAlloc for T {
+        unsafe fn alloc(&self, l: Layout) -> *mut u8 {
+            MAX.fetch_max(l.size(), SeqCst);
+            System.alloc(l)
+        }
+        unsafe fn dealloc(&self, p: *mut u8, l: Layout) {
+            System.dealloc(p, l)
+        }
+        unsafe fn realloc(&self, p: *mut u8, l: Layout, n: usize) -> *mut u8 {
+            MAX.fetch_max(n, SeqCst);
+            System.realloc(p, l, n)
+        }
+        unsafe fn alloc_zeroed(&self, l: Layout) -> *mut u8 {
+            MAX.fetch_max(l.size(), SeqCst);
+            System.alloc_zeroed(l)
+        }
+    }
+}
+#[cfg(not(kani))]
+#[global_allocator]
+static TRACK: track::T = track::T;
+
+#[cfg(not(kani))]
+struct StrOnly;
+#[cfg(not(kani))]
+impl<'de> serde::Deserialize<'de> for StrOnly {
+    fn deserialize<D: serde::Deserializer<'de>>(d: D) -> Result<Self, D::Error> {
+        struct V;
+        impl<'de> serde::de::Visitor<'de> for V {
+            type Value = StrOnly;
+            fn expecting(&self, f: &mut std::fmt::Formatter) -> std::fmt::Result {
+                f.write_str("str")
+            }
+            fn visit_str<E>(self, _: &str) -> Result<StrOnly, E> {
+                Ok(StrOnly)
+            }
+        }
+        d.deserialize_str(V)
+    }
+}
+#[cfg(not(kani))]
+struct BytesOnly;
+#[cfg(not(kani))]
+impl<'de> serde::Deserialize<'de> for BytesOnly {
+    fn deserialize<D: serde::Deserializer<'de>>(d: D) -> Result<Self, D::Error> {
+        struct V;
+        impl<'de> serde::de::Visitor<'de> for V {
+            type Value = BytesOnly;
+            fn expecting(&self, f: &mut std::fmt::Formatter) -> std::fmt::Result {
+                f.write_str("bytes")
+            }
+            fn visit_bytes<E>(self, _: &[u8]) -> Result<BytesOnly, E> {
+                Ok(BytesOnly)
+            }
+        }
+        d.deserialize_bytes(V)
+    }
+}
+
+#[cfg(not(kani))]
 fn main() {
     use bytes::Bytes;
     use fe2o3_amqp::verif_facade::*;
@@ -553,6 +619,28 @@ fn main() {
                     off = end;
                 }
                 format!("{{\"frames\":[{}],\"payload_ok\":{}}}", frames.join(","), got == payload)
+            }
+            // iofill <performative|stronly|bytesonly> <claimed len> <bytes present>: from_reader over an input
+            //   whose 32-bit size field claims <claimed> bytes with <present> bytes following; reports the
+            //   largest single allocation request made while decoding
+            "iofill" => {
+                let claimed = (nums[1] as u32).to_be_bytes();
+                let present = nums[2] as usize;
+                let mut input: Vec<u8> = match toks[1] {
+                    "performative" => vec![0x00, 0xb3],
+                    "stronly" => vec![0xb1],
+                    _ => vec![0xb0],
+                };
+                input.extend_from_slice(&claimed);
+                input.extend((0..present).map(|i| b'a' + (i % 26) as u8));
+                track::MAX.store(0, std::sync::atomic::Ordering::SeqCst);
+                let ok = match toks[1] {
+                    "performative" => serde_amqp::from_reader::<fe2o3_amqp_types::performatives::Performative>(&input[..]).is_ok(),
+                    "stronly" => serde_amqp::from_reader::<StrOnly>(&input[..]).is_ok(),
+                    _ => serde_amqp::from_reader::<BytesOnly>(&input[..]).is_ok(),
+                };
+                let max = track::MAX.load(std::sync::atomic::Ordering::SeqCst);
+                format!("{{\"input_len\":{},\"ok\":{},\"max_alloc\":{}}}", input.len(), ok, max)
             }
             // wakeup <pos> <credit>: one waiter with no credit, one grant of <credit> placed
             //   pos 0: before the first poll, 1: at the cfg schedule point (between the failed credit
